@@ -39,6 +39,18 @@ def _gen_plan(seed, tier):
             ops.insert(first, {'op': 'set', 'what': 'limits', 'arg': [r3.choice([20, 40, 60]), None, False]})
         ops.insert(first + 2, {'op': 'solve'})
         plan['ops'] = ops
+    r4 = sub_rng(seed, 'plan.c04.save')
+    if r4.random() < 0.15:
+        # periodic restart dumps while the run goes on: taking a dump must not disturb counters, monitors or callbacks
+        first = next((i for i, o in enumerate(plan['ops']) if o['op'] in ('step', 'solve')), len(plan['ops']))
+        plan['ops'].insert(r4.randint(1, max(1, first)), {'op': 'set', 'what': 'save', 'arg': {'every': r4.choice([1, 1, 2, 3]), 'file': 'restart.pkl'}})
+        # (a dump per generation is slow: no run-to-default-limits Solve in these plans)
+        g = r4.choice([6, 12, 25, 40])
+        for o in plan['ops']:
+            if o['op'] == 'set' and o['what'] == 'limits' and (o['arg'][0] is None or o['arg'][0] > 40): o['arg'][0] = g
+        first = next((i for i, o in enumerate(plan['ops']) if o['op'] in ('step', 'solve')), len(plan['ops']))
+        if not any(o['op'] == 'set' and o['what'] == 'limits' for o in plan['ops'][:first]):
+            plan['ops'].insert(first, {'op': 'set', 'what': 'limits', 'arg': [g, None, False]})
     logging = any(o['op'] == 'set' and o['what'] in ('stepmon', 'evalmon') and (o.get('arg') or {}).get('kind') == 'Logging'
                   for o in plan['ops'])
     rng = sub_rng(seed, 'fault')
